@@ -658,12 +658,16 @@ fn c08_commit_stale_stamp_refused_early() {
 #[kani::proof]
 #[kani::unwind(6)]
 fn c06_add_single_current_perspective() {
+    c06_add_single_case(0);
+    c06_add_single_case(1);
+}
+
+fn c06_add_single_case(pre: usize) {
     // concrete ids: with symbolic ids CBMC cannot fold `phead == Some(parent.id)` and walks the
     // graph-search path as well, which does not finish.  Symbolic: rule outcome, perspective fill.
     let (g, a, c0, c1) = (10u8, 11u8, 12u8, 13u8);
     let rejected: bool = kani::any();
-    let pre: usize = kani::any(); // commands already in the perspective
-    kani::assume(pre <= 1);
+    // `pre` = commands already in the perspective (concrete per case)
     let mut store = AStore::with_chain(&[g, a]);
     let mut ps = policies(if rejected { Some(c1) } else { None });
     let mut sink = ASink::new();
